@@ -678,6 +678,8 @@ def _decode_element(cur, strict, notes):
         if strict and attr < 0:
             raise GdsError('range16', 'PROPATTR is negative (%d)' % attr, poff)
         val = cur.take('PROPVALUE')
+        if notes is not None and any(a == attr for a, _ in props):
+            notes.append('duplicate_propattr:%d' % attr)  # the format wants distinct attribute numbers per element
         total += len(val) + (len(val) & 1) + 4
         props.append((attr, val))
     if total > 128 and notes is not None:
